@@ -296,7 +296,12 @@ unsafe fn observe<'a>(mgr: *mut c_void, c: CB, nat: BddPtr<'a>, want: TT, n: usi
 /// lock-step sweep over all functions of n variables
 /// wide managers: model counts of constants, literals, cubes, clauses and their negations at
 /// the first / middle / last positions of an `nv`-variable manager against the closed form
-fn wide_counts(nv: usize) -> Report {
+pub fn wide_counts(nv: usize) -> Report {
+    wide_counts_keyed(nv, "ffi:model-count")
+}
+
+/// `key`: violation key (the same exported counter is anchored by C08 and C18)
+pub fn wide_counts_keyed(nv: usize, key: &str) -> Report {
     let mut rep = Report::default();
     rep.exhaustive = true;
     unsafe {
@@ -306,13 +311,28 @@ fn wide_counts(nv: usize) -> Report {
             let mc = robdd_model_count(mgr, c);
             rep.transitions += 1;
             if mc as u128 != want {
-                rep.violation("ffi:model-count", format!("{} variables, {}: robdd_model_count = {}, the function has {} models", nv, what, mc, want), json!({"kind": "ffi_wide", "n": nv}));
+                rep.violation(key, format!("{} variables, {}: robdd_model_count = {}, the function has {} models", nv, what, mc, want), json!({"kind": "ffi_wide", "n": nv}));
             }
         };
         let t = bdd_true(mgr);
         let f = bdd_false(mgr);
         chk(t, total, "true".into(), &mut rep);
         chk(f, 0, "false".into(), &mut rep);
+        // counts that are not multiples of a large power of two: the disjunction and the
+        // conjunction of all variables (2^nv - 1 and 1 models) and their negations
+        {
+            let mut any = f;
+            let mut all = t;
+            for v in 0..nv {
+                let x = bdd_var(mgr, v as u64, v % 2 == 0);
+                any = bdd_or(mgr, any, x);
+                all = bdd_and(mgr, all, x);
+            }
+            chk(any, total - 1, "or of one literal per variable".into(), &mut rep);
+            chk(all, 1, "and of one literal per variable".into(), &mut rep);
+            chk(bdd_negate(mgr, any), 1, "negated or of one literal per variable".into(), &mut rep);
+            chk(bdd_negate(mgr, all), total - 1, "negated and of one literal per variable".into(), &mut rep);
+        }
         let mut pos: Vec<usize> = vec![0, nv / 2, nv - 1];
         pos.dedup();
         for &a in pos.iter() {
@@ -624,8 +644,8 @@ pub fn run(ctx: &Ctx) -> Report {
     let ns: Vec<usize> = ctx.tier.pick(vec![1, 2, 3], vec![1, 2, 3]);
     let r = par_run(ctx, &ns, |_, n| sweep(*n, ctx));
     rep.merge(r);
-    // wide managers (counts up to 2^48, far above every 32-bit quantity)
-    let wides: Vec<usize> = ctx.tier.pick(vec![4, 8, 16, 20, 21, 24, 31, 32, 33, 40, 48], (4..=56).collect());
+    // wide managers (counts up to 2^63 - 1: above every 32-bit quantity and above the 53 bits of a double)
+    let wides: Vec<usize> = ctx.tier.pick(vec![4, 8, 16, 20, 21, 24, 31, 32, 33, 40, 48, 53, 54, 56, 60, 63], (4..=63).collect());
     let w = par_run(ctx, &wides, |_, nv| wide_counts(*nv));
     rep.add_extra("wide_manager_model_counts", w.transitions);
     rep.bound("wide_managers", json!({"variables": wides, "functions": "constants, literals, 2-literal and/or, negations, 3-literal cubes/clauses/ite at the first/middle/last positions"}));
